@@ -26,6 +26,7 @@ mod deltacases;
 mod c01;
 mod c18;
 mod c19;
+mod c05;
 
 use common::*;
 
@@ -39,6 +40,13 @@ fn main() {
         std::process::exit(2);
     }
     let id = args[1].clone();
+    if args.get(2).map(String::as_str) == Some("--child") {
+        let a = args.get(3).cloned().unwrap_or_default();
+        match id.as_str() {
+            "C05" => c05::child_main(&a),
+            _ => machinery_error("no child mode for this id"),
+        }
+    }
     let mut tier = match std::env::var("VERIF_TIER").as_deref() {
         Ok("thorough") => Tier::Thorough,
         _ => Tier::Quick,
@@ -67,6 +75,7 @@ fn main() {
         "C16" => c01::run_c16(&ctx),
         "C18" => c18::run(&ctx),
         "C19" => c19::run(&ctx),
+        "C05" => c05::run(&ctx),
         _ => machinery_error(format!("unknown property id {id}")),
     }
 }
